@@ -487,6 +487,11 @@ func main() {
 		for k := range theWorld.Trusted {
 			tks = append(tks, k)
 		}
+		for k := range theWorld.Checked {
+			if !theWorld.Trusted[k] {
+				tks = append(tks, k)
+			}
+		}
 		sort.Strings(tks)
 		nrec := 400
 		if *tier == "thorough" {
@@ -504,20 +509,30 @@ func main() {
 				genErrors = append(genErrors, "trusted contract of "+short+" could not be exercised concretely")
 				continue
 			}
-			bc := map[string]interface{}{"function": short, "kind": "bounded: contract evaluated on concrete executions of the real function (reflect driver, go test -overlay)",
+			kind := "bounded: trusted contract evaluated on concrete executions of the real function (reflect driver, go test -overlay)"
+			if !theWorld.Trusted[short] {
+				kind = "bounded: the contract INCLUDING its 'checked' clauses (not obligations: " + strings.Join(theWorld.Checked[short], " ;; ") + ") evaluated on concrete executions of the real function (reflect driver, go test -overlay)"
+			}
+			bc := map[string]interface{}{"function": short, "kind": kind,
 				"records_tried": res["records_tried"], "records_admissible": res["records_admissible"], "bound": fmt.Sprintf("%d seeded random/boundary records, seed %d", nrec, seedFromEnv())}
 			boundedChecks = append(boundedChecks, bc)
 			if adm, _ := res["records_admissible"].(int); adm == 0 {
 				genErrors = append(genErrors, fmt.Sprintf("bounded check of trusted %s: no admissible record (%v)", short, res["error"]))
 			}
 			if c, _ := res["confirmed"].(bool); c {
-				rp := filepath.Join(*verif, "replay", fmt.Sprintf("%s-%s.json", pid, sanitize(key+"/trusted-contract-on-real-code")))
-				r := map[string]interface{}{"property": pid, "obligation": key + "/trusted-contract-on-real-code", "function": key,
-					"note": "the contract of this function is trusted by the proofs of its callers (body outside the subset); evaluated on concrete executions of the real code it is violated by the recorded input",
+				label := "/trusted-contract-on-real-code"
+				note := "the contract of this function is trusted by the proofs of its callers (body outside the subset); evaluated on concrete executions of the real code it is violated by the recorded input"
+				if !theWorld.Trusted[short] {
+					label = "/checked-clause-on-real-code"
+					note = "a 'checked' clause (a clause of the statement that is not an obligation; bounded check on concrete executions of the real code) is violated by the recorded input"
+				}
+				rp := filepath.Join(*verif, "replay", fmt.Sprintf("%s-%s.json", pid, sanitize(key+label)))
+				r := map[string]interface{}{"property": pid, "obligation": key + label, "function": key,
+					"note": note,
 					"witness": res}
 				b, _ := json.MarshalIndent(r, "", " ")
 				os.WriteFile(rp, b, 0644)
-				fmt.Printf("FAILED %s/trusted-contract-on-real-code :: %v\n", key, res["violated"])
+				fmt.Printf("FAILED %s%s :: %v\n", key, label, res["violated"])
 				fmt.Printf("VIOLATION property=%s replay=%s\n", pid, rp)
 				violations++
 				exit = 1
